@@ -402,9 +402,9 @@ def typed_dict_signature(obj: tp.Callable) -> inspect.Signature:
                 name=x,
                 kind=inspect.Parameter.KEYWORD_ONLY,
                 annotation=y,
-                default=getattr(
-                    obj, x, inspect.Parameter.empty if x in required else ...
-                ),
+                # (A TypedDict body cannot declare values: an attribute of that name is
+                #   `dict`'s own, e.g. a key called "items".)
+                default=inspect.Parameter.empty if x in required else ...,
             )
             for x, y in hints.items()
         )
